@@ -16,6 +16,8 @@ def check(run):
     pf.model_and_replay(run, "triples", pf.pratt_cfg("triples", lazy=False, source="TripleSource", firstset="TripleSet"), "C02", "C02")
     pf.model_and_replay(run, "decor", pf.pratt_cfg("decor", lazy=False, source="DecorSource", firstset="DecorSet"), "C02", "C02")
     pf.trace_validate(run, "wf", 12000 if thorough else 1600, run.seed, 0, "C02", "C02")
+    if thorough:
+        pf.simulate(run)
     run.exhaustive = False
     run.assumptions += ["token strings are laid out with single spaces (other layouts: C11)", "hook H1 reports the token sequence the parser sees",
                         "TLC, the JSON encodings, the concretisation table and the harness's comparison code are trusted"]
